@@ -1755,7 +1755,7 @@ class FnEval:
                             "only (only a length common to both sides may shift both indices)" % (
                                 e.get("src", ""), g.name, show(v)), line)
         # accessor rows (checked bodies, but a fixed result keeps callers precise)
-        row = ACCESSORS.get(_strip_generics(g.path))
+        row = ACCESSORS.get(_strip_generics(g.path)) or ACCESSORS.get(ctx.prog.canon(g.path))
         # contract: parameters whose names declare a sort
         ev = FnEval(ctx, g, depth=self.depth + 1, report=False)
         seeds = []
@@ -1799,7 +1799,7 @@ class FnEval:
                             e.get("src", ""), sorted(f for f in frames if f)), line)
         elif self.report and seeds and any(s is not None for s in seeds):
             ctx.ob("A3", True, "%s: call `%s` frames %s" % (self.fn.path, e.get("src", ""), sorted(f for f in frames if f)))
-        same = SAME_SIDE.get(_strip_generics(g.path)) or SAME_SIDE.get(g.path)
+        same = SAME_SIDE.get(_strip_generics(g.path)) or SAME_SIDE.get(g.path) or SAME_SIDE.get(ctx.prog.canon(g.path))
         if same and self.report:
             ss = set()
             arg_exprs = ([e.get("recv")] if e.get("k") == "mcall" else []) + list(e.get("args", []))
